@@ -204,13 +204,23 @@ REJECTED = {
 }
 
 
+_LEFT_DIR = []
+
+
 def _run_project(files: dict) -> tuple[list[str], dict[str, str]]:
     common.import_ford()
     import ford.fortran_project as fp
     import ford.sourceform as sf
     from ford.settings import ProjectSettings
 
-    d = Path(tempfile.mkdtemp(prefix="c20left"))
+    # (the same directory for every run: a table keyed by path would otherwise differ by the directory name alone)
+    if not _LEFT_DIR:
+        import atexit
+        _LEFT_DIR.append(Path(tempfile.mkdtemp(prefix="c20left")))
+        atexit.register(shutil.rmtree, _LEFT_DIR[0], ignore_errors=True)
+    d = _LEFT_DIR[0] / "src"
+    shutil.rmtree(d, ignore_errors=True)
+    d.mkdir()
     try:
         for n, t in files.items():
             (d / n).write_bytes(t) if isinstance(t, bytes) else (d / n).write_text(t)
